@@ -77,6 +77,8 @@ def Auth.real (a : Auth) : J :=
 
 inductive CbKind where
   | fn | coro | call
+  /-- an application callback that raises after it has run (contained by engine.io) -/
+  | raises
   deriving DecidableEq, Repr, Inhabited
 
 /-- An acknowledgement callback: a token chosen by the caller (`call` is the internal
@@ -302,9 +304,11 @@ def handleEvent (cfg : Cfg) (c : Cli) (ns : Option Ns) (id : Option Nat) (data :
 
 def isKey (n : Ns) (i : Nat) (e : Ns × Nat × Cb) : Bool := e.1 = n && e.2.1 = i
 
-/-- `callback(*data)` -/
+/-- `callback(*data)`; an exception of the callback leaves `_handle_eio_message` and is contained
+    by engine.io (the table entry is gone by then) -/
 def ackOuts (cb : Cb) : Option J → List Out
-  | some (.arr args) => [.callback cb args]
+  | some (.arr args) =>
+    if cb.kind = .raises then [.callback cb args, .contained .other] else [.callback cb args]
   | _ => [.contained .typeError]
 
 def handleAck (c : Cli) (ns : Option Ns) (id : Option Nat) (data : Option J) : Cli × List Out :=
